@@ -50,8 +50,9 @@ class RuleGen:
         self.fields = [si.fields() for si in insts]
         self.icaps: List[tuple] = []   # (name, index of defining instruction)
         self.ocaps: List[tuple] = []   # (name, bound field text)
-        self.regcaps: List[tuple] = []
+        self.regcaps: List[tuple] = []   # (base name, family, letter)
         self.ncap = 0
+        self.allow_def = True
 
     # ---------------------------------------------------------------- names
     def mnem_name(self, mnem: str) -> str:
@@ -148,19 +149,25 @@ class RuleGen:
             d = self.deref_for(field)
             if d is not None:
                 return d
+        if field.startswith("%") and rng.random() < f.regfam:
+            rf = self.regfam_node(field)
+            if rf is not None:
+                return rf
         if r < f.ocaps and field != "":
             same = [n for n, txt in self.ocaps if txt == field]
             if same and rng.random() < 0.7:
                 return rng.choice(same)
-            if rng.random() < 0.6:
+            if self.allow_def and rng.random() < 0.6:
                 n = self.new_cap("o")
                 self.ocaps.append((n, field))
                 return n
-            if self.ocaps:
+            if self.ocaps and rng.random() < 0.2:
                 return rng.choice(self.ocaps)[0]  # near miss: a capture bound to other text
         if depth < 1 and rng.random() < f.ogroups:
             kind = rng.choice(["$or", "$or", "$and"])
+            saved, self.allow_def = self.allow_def, False
             good = self.operand_node(field, depth + 1)
+            self.allow_def = saved
             if good is None:
                 return None
             if kind == "$or":
@@ -171,6 +178,44 @@ class RuleGen:
             d = self.decoy_operand()
             return {"$not": [d]}
         return self.op_name(field)
+
+    def regfam_node(self, field: str):
+        """A register-family capture for a register operand (definition or later use)."""
+        from .model import REG_TABLE
+        rng = self.rng
+        hit = None
+        for fam, letters in REG_TABLE.items():
+            for letter, widths in letters.items():
+                for w, nm in widths.items():
+                    if field == "%" + nm:
+                        hit = (fam, letter, w)
+        if hit is None:
+            return None
+        fam, letter, w = hit
+        prefix = {"gen": "&genreg", "ind": "&indreg", "stack": "&stackreg", "base": "&basereg"}[fam]
+
+        def suffix(width, may_omit=False):
+            r = rng.random()
+            if r < 0.25 and may_omit:
+                return ""
+            sp = {"8h": rng.choice([".8h", ".8H"]), "8l": rng.choice([".8l", ".8L"])}.get(width, "." + width)
+            if r < 0.85:
+                return sp
+            other = rng.choice([x for x in REG_TABLE[fam][letter] if x != width] or [width])   # near miss: other width
+            return "." + other
+        same = [b for b, f2, l2 in self.regcaps if f2 == fam and l2 == letter]
+        if same and rng.random() < 0.75:
+            return rng.choice(same) + suffix(w)
+        if self.allow_def and rng.random() < 0.7:
+            base = prefix + rng.choice(["", "-1", "-2", "_a"])
+            if any(b == base for b, _, _ in self.regcaps):
+                return None
+            self.regcaps.append((base, fam, letter))
+            return base + suffix(w, may_omit=True)
+        others = [b for b, f2, _ in self.regcaps if f2 == fam]
+        if others and rng.random() < 0.25:
+            return rng.choice(others) + suffix(w)   # near miss: bound to another register
+        return None
 
     def decoy_operand(self):
         rng = self.rng
@@ -203,12 +248,17 @@ class RuleGen:
         addr, mnem, ops = self.fields[idx]
         rng, f = self.rng, self.feat
         name = self.mnem_name(mnem)
+        timed = allow_times and rng.random() < f.times_item
+        saved = self.allow_def
+        if timed:
+            self.allow_def = False
         operands = self.operands_for(ops) if rng.random() < f.operands else None
+        self.allow_def = saved
         if operands is None:
             node: Any = name
         else:
             node = {name: operands}
-        if allow_times and rng.random() < f.times_item:
+        if timed:
             node = self.with_times(node, idx)
         return node, 1
 
@@ -256,9 +306,14 @@ class RuleGen:
         if left <= 0:
             return None
         r = rng.random()
+        if depth == 0:
+            self.allow_def = True
+        if depth < f.max_depth and r < f.groups + f.nots:
+            self.allow_def = False
         if depth < f.max_depth and r < f.groups:
             kind = rng.choice(["$and", "$or", "$and_any_order"])
             if kind == "$or":
+                self.allow_def = False
                 good = self.node_for(idx, depth + 1)
                 if good is None:
                     return None
@@ -298,7 +353,7 @@ class RuleGen:
                 n = self.new_cap("i")
                 self.icaps.append((n, idx))
                 return n, 1
-            if self.icaps:
+            if self.icaps and rng.random() < 0.3:
                 return rng.choice(self.icaps)[0], 1
         node, used = self.item_for(idx, allow_times=(depth == 0 or rng.random() < 0.5))
         return node, used
@@ -466,3 +521,23 @@ def _readdress(insts: List[SInst]):
     for s in insts:
         s.addr = a
         a += s.nbytes
+
+
+def pattern_cost(node) -> int:
+    """Rough size of the regex a pattern compiles to (any-order groups expand to k! sequences)."""
+    import math
+    if isinstance(node, (str, int)) or node is None:
+        return 1
+    if isinstance(node, list):
+        return sum(pattern_cost(x) for x in node)
+    if isinstance(node, dict):
+        total = 0
+        for k, v in node.items():
+            if k == "times":
+                continue
+            c = pattern_cost(v)
+            if k == "$and_any_order" and isinstance(v, list):
+                c *= math.factorial(min(len(v), 8))
+            total += c + 1
+        return total
+    return 1
